@@ -68,7 +68,7 @@ fn render_line(key: &str, name: &[u8], value: &str, bl: &[Vec<u8>], lead: bool) 
     v
 }
 
-fn case_strategy(tier: Tier) -> BoxedStrategy<Case> {
+pub fn case_strategy(tier: Tier) -> BoxedStrategy<Case> {
     let max_files = tier.pick(4, 5);
     let file = (distgen::name(), distgen::checksums(), distgen::size())
         .prop_map(|(name, checksums, size)| FileSpec { name, checksums, size });
@@ -173,10 +173,17 @@ fn liberal_shape(line: &[u8]) -> bool {
         && std::str::from_utf8(f[0]).map(|a| a == "Size" || Alg::from_name_ci(a).is_some()).unwrap_or(false)
 }
 
+/// a Size line whose number carries a plus sign ('+5'): the statement says "a valid size" without
+/// saying whether that is one (Rust's integer parser takes it, pkgsrc never writes it)
+fn signed_size(line: &[u8]) -> bool {
+    let f: Vec<&[u8]> = line.split(|b| m::is_ws(*b)).filter(|s| !s.is_empty()).collect();
+    f.len() >= 4 && f[0] == b"Size" && f[3].starts_with(b"+")
+}
+
 pub fn check(c: &Case, obs: &mut Obs) -> Result<(), String> {
     let mut text = vec![];
     for (i, l) in c.lines.iter().enumerate() {
-        if l.0.contains(&b'\n') || l.0.contains(&0x0b) || liberal_shape(&l.0) {
+        if l.0.contains(&b'\n') || l.0.contains(&0x0b) || liberal_shape(&l.0) || signed_size(&l.0) {
             obs.excluded = true;
             return Ok(());
         }
@@ -334,11 +341,10 @@ pub fn property() -> Property {
         ],
         streams: vec![
             random_stream("texts", "interleaved checksum/size lines mixed with noise", case_strategy, |t| t.pick(80_000, 4_000_000), check),
-            random_stream("names", "patch / distfile classification of generated names", name_strategy, |t| t.pick(40_000, 2_000_000), check_name),
-        ],
+            random_stream("names", "patch / distfile classification of generated names", name_strategy, |t| t.pick(40_000, 2_000_000), check_name), crate::fuzz::replay_stream()],
         selfcheck: m::selfcheck,
         hang_is_violation: false,
         min_nontrivial_share: 0.03,
-        extra: None,
+        extra: Some(crate::fuzz::extra),
     }
 }
